@@ -15,30 +15,32 @@ Import ListNotations.
 From AiuModel Require Import Base PrepQueue PrepQueue_proofs.
 Local Open Scope Z_scope.
 
-(* (1) The counter is right.  If the stage does not raise, and the Prep slices of pid p are non-empty
-   intervals that arrive in non-decreasing order of start, then for pid p:
+(* (1) The counter is right.  If the stage does not raise and the Prep slices of pid p arrive in
+   non-decreasing order of start, then for pid p:
      - sample times are strictly increasing,
      - every sample's value is the number of Prep slices with start <= t < end at its time,
      - the step function denoted by the samples equals that number at EVERY time t,
-     - every start and every end of a Prep slice is a sample time,
+     - every start and every end of a non-empty Prep slice is a sample time,
      - over any stretch (t1, t2] without a sample the number does not change (so there is a sample at
        every instant where it changes),
-     - the series ends at 0, and a pid without Prep slices gets no sample. *)
+     - the series ends at 0, and a pid without non-empty Prep slices gets no sample.
+   No hypothesis on the durations: a slice with end <= start (dur <= 0) is in flight at no time, so it
+   does not count in [count_at], and create_counter's guard makes it leave no trace in the series. *)
 Theorem C13_counter_correct :
   forall (keep : bool) (evs : list ev) (r : list (list out) * list out) (p : Z),
     run_stage keep evs = Ok r ->
-    Forall (fun iv => (fst iv < snd iv)%Q) (preps_of p evs) ->
     StronglySorted (fun a b => (fst a <= fst b)%Q) (preps_of p evs) ->
     let W := samples_of p (all_out r) in
     let I := preps_of p evs in
     StronglySorted (fun a b : bp => (fst a < fst b)%Q) W /\
     (forall t c, In (t, c) W -> c = count_at I t) /\
     (forall t, den 0 W t = count_at I t) /\
-    (forall iv, In iv I -> (exists x, In x W /\ (fst x == fst iv)%Q) /\ (exists x, In x W /\ (fst x == snd iv)%Q)) /\
+    (forall iv, In iv I -> (fst iv < snd iv)%Q ->
+       (exists x, In x W /\ (fst x == fst iv)%Q) /\ (exists x, In x W /\ (fst x == snd iv)%Q)) /\
     (forall t1 t2, (t1 <= t2)%Q -> (forall x, In x W -> ~ ((t1 < fst x)%Q /\ (fst x <= t2)%Q)) ->
                    count_at I t1 = count_at I t2) /\
     lastc 0 W = 0 /\
-    (I = [] -> W = []).
+    (Forall (fun iv => ~ (fst iv < snd iv)%Q) I -> W = []).
 Proof. exact counter_correct_full. Qed.
 Print Assumptions C13_counter_correct.
 
@@ -74,18 +76,16 @@ Theorem C13_queue_step_denotation :
 Proof. exact queue_step_denotation. Qed.
 Print Assumptions C13_queue_step_denotation.
 
-(* (5) The hypothesis "non-empty interval" in (1) cannot be dropped: for a Prep slice with dur = 0 the
-   current code emits two samples at the same time, the first claiming one Prep in flight where
-   there is none.  (A finding about /repo, reproduced by the check's oracle on the real code.) *)
-Theorem C13_zero_length_refuted :
-  exists (evs : list ev) (r : list (list out) * list out),
-    StronglySorted (fun a b => (e_ts a <= e_ts b)%Q) evs /\
-    StronglySorted (fun a b => (fst a <= fst b)%Q) (preps_of 0 evs) /\
-    run_stage false evs = Ok r /\
-    ~ StronglySorted (fun a b : bp => (fst a < fst b)%Q) (samples_of 0 (all_out r)) /\
-    exists t c, In (t, c) (samples_of 0 (all_out r)) /\ c <> count_at (preps_of 0 evs) t.
-Proof. exact zero_length_refuted. Qed.
-Print Assumptions C13_zero_length_refuted.
+(* (5) The guard of create_counter (added by the fix of the zero-duration defect found by this check):
+   an interval with end <= start emits no sample and leaves every pid's stored queue unchanged (the
+   pid only gets its dict entry, which drain() turns into nothing). *)
+Theorem C13_empty_interval_ignored :
+  forall (qs : queues) (p : Z) (s e : Q),
+    (e <= s)%Q ->
+    snd (create_counter qs p s e) = [] /\
+    forall p', qof p' (fst (create_counter qs p s e)) = qof p' qs.
+Proof. exact empty_interval_ignored. Qed.
+Print Assumptions C13_empty_interval_ignored.
 
 (* ---------------------------------------------------------------- non-vacuity *)
 (* two ranks; rank 0: [0,10) with [2,5) nested in it (the F2b shape), [5,7) touching, [5,12) equal
@@ -122,6 +122,19 @@ Proof.
   split; [repeat constructor; unfold Qlt; cbn; reflexivity|].
   split; [repeat constructor; unfold Qlt; cbn; reflexivity|].
   split; [vm_compute; reflexivity|]. split; vm_compute; reflexivity.
+Qed.
+
+(* the input that broke the property before the fix: a Prep slice with dur = 0 after a normal one, and one on
+   a pid of its own; hypotheses of (1) hold (ts-sorted) and the empty slices leave no trace *)
+Example C13_zero_duration :
+  exists r, run_stage false zero_witness = Ok r /\
+    StronglySorted (fun a b => (e_ts a <= e_ts b)%Q) zero_witness /\
+    map (fun x => (Qred (fst x), snd x)) (samples_of 0 (all_out r)) = [(qz 0, 1); (qz 4, 0)] /\
+    samples_of 7 (all_out r) = [] /\ passed (all_out r) = [].
+Proof.
+  eexists. split; [vm_compute; reflexivity|].
+  split; [repeat constructor; unfold Qle; cbn; discriminate|].
+  repeat split; vm_compute; reflexivity.
 Qed.
 
 (* the hypotheses of (4) are met by the stored list [(0,1); (2,2); (5,1); (10,0)] and the interval [5,7) *)
